@@ -228,6 +228,24 @@ func applyPred(p *SX, v any) bool {
 	case "nonnil":
 		p, ok := v.(*any)
 		return ok && p != nil
+	case "or":
+		return applyPred(p.List[1], v) || applyPred(p.List[2], v)
+	case "and":
+		return applyPred(p.List[1], v) && applyPred(p.List[2], v)
+	case "not":
+		return !applyPred(p.List[1], v)
+	case "nth", "last": // element of a slice; false when there is no such element
+		xs, ok := v.([]any)
+		k := len(xs) - 1
+		q := p.List[1]
+		if p.Head() == "nth" {
+			k = atoi(p.List[1])
+			q = p.List[2]
+		}
+		if !ok || k < 0 || k >= len(xs) {
+			return false
+		}
+		return applyPred(q, xs[k])
 	}
 	panic("spec: bad pred " + p.String())
 }
